@@ -273,6 +273,34 @@ wait:
 			calls = append(calls, cl)
 		}
 	}
+	// well-formed streams rich in the rarer constructs (unknown messages and
+	// fields, developer fields, compressed headers on any message, empty
+	// definitions), under all 8 option sets: the option-dependent paths
+	// (logger, counters) see every record shape
+	{
+		g := &generator{rng: rng, p: p, sch: sch, k: defaultKnobs()}
+		g.k.pUnknownMsg, g.k.pUnknownFld, g.k.pDev, g.k.pCompressed, g.k.pZeroFields = 0.35, 0.4, 0.3, 0.5, 0.1
+		g.k.slots = []int{0, 1, 2, 3, 5, 15}
+		g.k.nrec = 40
+		for i := 0; i < c.pick(150, 3000); i++ {
+			in := g.Generate().Bytes()
+			for o := 0; o < 8; o++ {
+				api := []string{"decode", "chained"}[(i+o)%2]
+				id++
+				cl := p.runCall(id, api, in, plain, CallOpts{UF: o & 1, UM: (o >> 1) & 1, Log: (o >> 2) & 1}, true)
+				cl.Note = "generated, rich in rare constructs"
+				if cl.Ret.Panic == 1 {
+					c.report("panic:"+firstWords(cl.Ret.PanicMsg), fmt.Sprintf("%s panics on a well-formed stream (options %+v): %s", api, cl.Opts, cl.Ret.PanicMsg), cl)
+				}
+				if cl.Ret.Hang == 1 {
+					c.report("hang:"+api, api+" does not return", cl)
+				}
+				if o == 7 {
+					calls = append(calls, cl)
+				}
+			}
+		}
+	}
 	// every file-type value followed by ordinary records (a type the library
 	// refuses must be refused before any record is routed)
 	for t := 0; t < 256; t++ {
